@@ -145,13 +145,22 @@ class Splitter:
         def _is_escaped():
             return currently_quote_escaped or num_open_curls > 0
 
+        # braces opened inside a quoted value (a quote inside them does not end the value)
+        num_quoted_curls = 0
+
         # iterate over marks until we find end of field
         while True:
             next_mark = self._next_mark(accept_eof=False)
 
             # Handle "escape" characters
-            if next_mark.group(0) == '"' and not num_open_curls > 0:
+            if next_mark.group(0) == '"' and not num_open_curls > 0 and not num_quoted_curls > 0:
                 currently_quote_escaped = not currently_quote_escaped
+                continue
+            elif next_mark.group(0) == "{" and currently_quote_escaped:
+                num_quoted_curls += 1
+                continue
+            elif next_mark.group(0) == "}" and currently_quote_escaped and num_quoted_curls > 0:
+                num_quoted_curls -= 1
                 continue
             elif next_mark.group(0) == "{" and not currently_quote_escaped:
                 num_open_curls += 1
